@@ -167,27 +167,26 @@ class igraph_rng:
 # choosing the deviation bound of a case
 
 
-def pick_bound(run_fn, horizon, bmax, budget):
-    """(b, default_cut): b = the largest value in 1..bmax whose estimated
-    number of executions (from the menus of the all-default execution) stays
-    within `budget`, at least 1; default_cut tells whether the all-default
-    execution ran into the horizon."""
-    cr = ChoiceRun([], horizon)
-    default_cut = False
+def default_is_cut(run_fn, horizon):
+    """Does the all-default execution run into the horizon?"""
     try:
-        run_fn(cr)
+        run_fn(ChoiceRun([], horizon))
     except Horizon:
-        default_cut = True
-    e1 = sum(m - 1 for m in cr.menus)
-    est, b = 1.0, 0
-    term = 1.0
-    for k in range(1, bmax + 1):
-        term = term * e1 / k
-        if k > 1 and est + term > budget:
-            break
-        est += term
-        b = k
-    return max(b, 1), default_cut
+        return True
+    return False
+
+
+def deepen(run_fn, judge, sig_of, horizon, bmax, budget):
+    """Iterative deepening over the deviation bound: run the complete DFS for
+    b = 1, 2, ... while the size of the next level (known exactly from the
+    menus of the executions with b deviations) stays within `budget`
+    executions.  Returns (b, result of the deepest complete DFS)."""
+    b = 1
+    r = drive(run_fn, judge, sig_of, 1, horizon)
+    while b < bmax and r["states"] + r["next_level"] <= budget:
+        b += 1
+        r = drive(run_fn, judge, sig_of, b, horizon)
+    return b, r
 
 
 def geo_swap_admissible(A, D, eps, model, deg, edges):
@@ -238,6 +237,9 @@ def simple_defect(A, n=None):
         return "not square: shape %s" % (A.shape,)
     if n is not None and A.shape[0] != n:
         return "%d nodes instead of %d" % (A.shape[0], n)
+    if not (np.any(np.diagonal(A)) or np.any(A != A.T) or
+            np.any((A != 0) & (A != 1))):
+        return None
     for i in range(A.shape[0]):
         if A[i, i] != 0:
             return "self-loop at node %d" % i
@@ -246,7 +248,7 @@ def simple_defect(A, n=None):
                 return "entry %r at (%d,%d)" % (A[i, j].item(), i, j)
             if A[i, j] != A[j, i]:
                 return "asymmetric at (%d,%d)" % (i, j)
-    return None
+    raise AssertionError("simple_defect: vector and loop tests disagree")
 
 
 def degrees(A):
